@@ -102,6 +102,25 @@ def step (line : String) : String :=
         s!"name={String.ofList name} exists={existsPartialKV fs (nat! a) (nat! b)} content=ok:{hex ((fs.read name).getD [])} {showLoaded (loadPartial fs name)}"
       | .ok (_, none) => "err:write"
       | .error _ => "err:save"
+  | ["RT2", kind, a, e1, e2, kv1, kv2, dp, _order] =>
+    -- two Saves of the same store, both writes pending, written in either order: each Save froze its own content
+    let kv1 := parseKV kv1
+    let kv2 := parseKV kv2
+    if hasDup (kv1.map (·.1)) || hasDup (kv2.map (·.1)) then "dup-keys" else
+    if kind == "full" then
+      match saveFull [] (nat! a) (nat! e1) kv1 with
+      | .ok (n1, fs1) =>
+        match saveFull fs1 (nat! a) (nat! e2) kv2 with
+        | .ok (n2, fs2) => s!"first={showLoaded (loadFull fs2 n1)} second={showLoaded (loadFull fs2 n2)}"
+        | .error _ => "err:save"
+      | .error _ => "err:save"
+    else
+      match savePartial [] (nat! a) (nat! e1) kv1 (parseList dp) with
+      | .ok (n1, fs1) =>
+        match savePartial fs1 (nat! a) (nat! e2) kv2 (parseList dp) with
+        | .ok (n2, fs2) => s!"first={showLoaded (loadPartial fs2 n1)} second={showLoaded (loadPartial fs2 n2)}"
+        | .error _ => "err:save"
+      | .error _ => "err:save"
   | ["LOAD", kind, h] =>
     let fs : Files := Files.write [] ['x'] (unhex h)
     if kind == "full" then showLoaded (loadFull fs ['x']) else showLoaded (loadPartial fs ['x'])
